@@ -75,6 +75,22 @@ Theorem C01_two_sample_core_evaluates_states : forall n s pot nx r (rr : seq nat
 Proof. intros n s pot nx r rr ds npos. exact (core_loop_states npos s pot nx (r:=r) (rr:=rr) (ds:=ds)). Qed.
 Print Assumptions C01_two_sample_core_evaluates_states.
 
+(* one_sample: every repetition draws n fair sign bits; the answer space of one repetition is the 2^n bit vectors
+   [bitvecs n]; over r repetitions the number of answer sequences with exactly h extreme sign vectors is
+   binomial with p* = #extreme sign vectors / 2^n ... *)
+Theorem C01_H_binomial_one_sample : forall n (extreme : seq nat -> bool) r h,
+  count (fun ds => count extreme ds == h) (tuples (bitvecs n) r)
+  = 'C(r, h) * count extreme (bitvecs n) ^ h * (2 ^ n - count extreme (bitvecs n)) ^ (r - h).
+Proof. intros n extreme r h. exact (one_sample_hits_binomial n extreme r h). Qed.
+Print Assumptions C01_H_binomial_one_sample.
+
+(* ... and those bit vectors are what the model's loop evaluates (one per repetition, whole tape consumed) *)
+Theorem C01_one_sample_evaluates_sign_vectors : forall n s (z : seq Q) r ds,
+  size z = n -> ds \in tuples (bitvecs n) r ->
+  exists dv, one_loop s z r (flatten ds) = Ok (dv, ds, [::]) /\ size dv = r.
+Proof. intros n s z r ds sz H. exact (@one_loop_bits n s z r sz ds H). Qed.
+Print Assumptions C01_one_sample_evaluates_sign_vectors.
+
 Example C01_nonvacuous :
   match two_sample [1;2;3]%Q [2;3]%Q MeanDiff TwoSided 2 true [2;0;1;0; 4;1;1;0]%nat with
   | Ok r => Qeq_bool (pval r) 1 && Nat.eqb (List.length (dist r)) 2
